@@ -1,0 +1,13 @@
+//go:build verif
+
+package utils
+
+import (
+	promParser "github.com/prometheus/prometheus/promql/parser"
+)
+
+// VerifCanJoin exposes canJoin's verdict.
+func VerifCanJoin(ls, rs Source, vm *promParser.VectorMatching) bool {
+	ok, _, _ := canJoin(ls, rs, vm)
+	return ok
+}
